@@ -1090,13 +1090,23 @@ class LoopDriver:
         # -- model: who is cleared, who is accessed
         cleared = [False] * self.n
         accessed = None
+        optional_clear = False
         if kind == 'clear':
             cleared[i] = True
         elif kind == 'call':
             accessed = i
         else:
             if op[2] and prev is not None:
-                cleared[prev] = True
+                if prev == i and not ctx.fresh and ctx.cached[i] and not op[3]:
+                    # the handle that is left and entered at once already
+                    # holds another world than the one being left (cleared
+                    # and accessed again from outside): it yields a fresh
+                    # world with or without one more clear - decided by
+                    # observation (Loop.switch: "can be cleared")
+                    optional_clear = True
+                    ctx.hits['loop_self_switch_handle_already_reloaded'] += 1
+                else:
+                    cleared[prev] = True
             if op[3]:
                 cleared[i] = True
             accessed = i
@@ -1127,6 +1137,9 @@ class LoopDriver:
                 f'{self._show(op)} raised {type(exc).__name__}: {exc}', **f)
         loads = [x.hx_calls - c for x, c in zip(hs, calls0)]
         traces = [''.join(x.hx_trace[k:]) for x, k in zip(hs, trace0)]
+        if optional_clear and 'C' in traces[i]:
+            cleared[i] = True
+            expect[i] = 1
         # -- named shortcuts (decided on the model, before it is updated)
         if kind == 'call':
             ctx.hits['loop_handle_call_cached' if ctx.cached[i]
